@@ -1,5 +1,5 @@
 SPECIFICATION Spec
-CONSTANTS Level = 2
+CONSTANTS Level = 1
 INVARIANT Total
 INVARIANT BoolIsBit
 INVARIANT SubjectReduction
